@@ -6,9 +6,8 @@
 //	           what:   bit 1 the key buffer, bit 2 the IV buffer is overwritten
 //	           how:    1 zeros, 2 0xFF, 3 other bytes; applied before the first Encrypt, the
 //	                   next pattern before the second one
-//	observed = (ctor_panicked run_panicked key_after_ctor iv_after_ctor enc1 enc2 dec
-//	            table(pristine key, pristine iv) table(key, iv buffer at call 1) table(.. at call 2) ivbuf1 ivbuf2)
-//	dec = Decrypt, after both overwrites, of what an instance made from pristine copies encrypted
+//	observed = (ctor_panicked run_panicked key_after_ctor iv_after_ctor enc1 enc2 dec table(pristine key, pristine iv))
+//	dec = Decrypt, with the buffers still overwritten, of what an instance made from pristine copies encrypted
 package main
 
 import (
@@ -53,7 +52,7 @@ func runOwner(in Sx) Sx {
 		p = mk(exact(key), exact(iv)) // made from pristine copies nobody touches
 	})
 	ka, va := exact(kb), exact(vb)
-	var enc1, enc2, dec, iv1, iv2 []byte
+	var enc1, enc2, dec []byte
 	rp := false
 	if !cp {
 		rp = guard(20*time.Second, func() {
@@ -63,7 +62,6 @@ func runOwner(in Sx) Sx {
 			if what&2 != 0 {
 				overwrite(vb, how, seed)
 			}
-			iv1 = exact(vb)
 			enc1 = append([]byte{}, a.Encrypt(pm(msg, seed, 0))...)
 			if what&1 != 0 {
 				overwrite(kb, how%3+1, seed+1)
@@ -71,25 +69,15 @@ func runOwner(in Sx) Sx {
 			if what&2 != 0 {
 				overwrite(vb, how%3+1, seed+1)
 			}
-			iv2 = exact(vb)
 			enc2 = append([]byte{}, a.Encrypt(pm(msg, seed, 1))...)
 			ct := p.Encrypt(pm(msg, seed, 2))
-			copy(vb, iv) // the IV buffer holds the original bytes again for the decryption
 			dec = append([]byte{}, a.Decrypt(pm(ct, seed, 3))...)
 		})
 	}
 	if rp {
 		enc1, enc2, dec = nil, nil, nil
 	}
-	if iv1 == nil {
-		iv1 = exact(iv)
-	}
-	if iv2 == nil {
-		iv2 = exact(iv)
-	}
-	return List(Bool(cp), Bool(rp), Bytes(ka), Bytes(va), Bytes(enc1), Bytes(enc2), Bytes(dec),
-		ListOf(oracleTable(key, iv, msg)), ListOf(oracleTable(key, iv1, msg)), ListOf(oracleTable(key, iv2, msg)),
-		Bytes(iv1), Bytes(iv2))
+	return List(Bool(cp), Bool(rp), Bytes(ka), Bytes(va), Bytes(enc1), Bytes(enc2), Bytes(dec), ListOf(oracleTable(key, iv, msg)))
 }
 
 func ownerCases(a Args, out *Out, rng *Rng) {
@@ -105,9 +93,11 @@ func ownerCases(a Args, out *Out, rng *Rng) {
 			Int(int64(what)), Int(int64(how)), Uint(uint64(rng.Intn(1<<16))), Int(int64(rng.Range(17, 40))))
 		kind := "ownership-args" // nothing overwritten: only the frame condition on the arguments
 		switch {
-		case what&2 != 0:
-			kind = "ownership-iv" // the IV buffer is overwritten (alone or together with the key buffer)
-		case what&1 != 0:
+		case what == 3:
+			kind = "ownership-both"
+		case what == 2:
+			kind = "ownership-iv"
+		case what == 1:
 			kind = "ownership-key"
 		}
 		out.Case(kind, true, in, run(in))
@@ -122,8 +112,8 @@ func ownerCases(a Args, out *Out, rng *Rng) {
 			for how := 1; how <= 3; how++ {
 				emit(false, name, kl, 1, how)
 			}
-			emit(false, name, kl, 2, rng.Range(1, 3)) // key and IV are never overwritten in the same case:
-			// the IV case is a known finding on the current tree and must not hide a key dependency
+			emit(false, name, kl, 2, rng.Range(1, 3))
+			emit(false, name, kl, 3, rng.Range(1, 3))
 		}
 		for _, c := range ctors {
 			for _, kl := range ctorKey[c] {
